@@ -87,9 +87,13 @@ class Tables:
                             if isinstance(n, ast.Attribute) and n.attr == e.attr and isinstance(n.ctx, ast.Store):
                                 return None
                 e = got[1]
-        elif isinstance(e, ast.Name):
-            if self._is_local(e.id):
+        elif isinstance(e, ast.Name) and self._is_local(e.id):
+            v = self._local_table(e.id)
+            if v is None:
                 return None
+            e = v
+            e0 = None  # values are evaluated where the table is built; reading them at the lookup instead is the accepted approximation
+        elif isinstance(e, ast.Name):
             v = self.f.module.assigns.get(e.id)
             if v is None:
                 return None
@@ -102,16 +106,37 @@ class Tables:
         if isinstance(e, ast.Dict):
             if not e.keys or len(e.keys) > MAX_ROWS or any(k is None or not _const_key(k) for k in e.keys):
                 return None
-            if not allow_dynamic_values and not all(_row_ok(v) for v in e.values) and e is not e0:
+            if not allow_dynamic_values and not all(_row_ok(v) for v in e.values):
                 return None
-            if e is e0 and not allow_dynamic_values and not all(_row_ok(v) for v in e.values):
-                return "inline-dynamic"  # type: ignore[return-value]
             return list(zip(e.keys, e.values))
         if isinstance(e, (ast.Tuple, ast.List)) and e is not e0:
             if not e.elts or len(e.elts) > MAX_ROWS or not all(_row_ok(v) for v in e.elts):
                 return None
             return [(ast.Constant(value=i), v) for i, v in enumerate(e.elts)]
         return None
+
+    def _local_table(self, name: str) -> Optional[ast.AST]:
+        """The dict literal a local is bound to, when that is its only binding and the local is only read through
+        `t[k]`, `t.get(k..)`, `k in t`."""
+        node = self.f.__dict__.get("raw_node", self.f.node)
+        binds = [n for n in ast.walk(node) if isinstance(n, (ast.Assign, ast.AnnAssign))
+                 and any(isinstance(t, ast.Name) and t.id == name for t in (n.targets if isinstance(n, ast.Assign) else [n.target]))]
+        stores = [n for n in ast.walk(node) if isinstance(n, ast.Name) and n.id == name and isinstance(n.ctx, (ast.Store, ast.Del))]
+        if len(binds) != 1 or len(stores) != 1 or not isinstance(binds[0].value, ast.Dict):
+            return None
+        parents = {}
+        for n in ast.walk(node):
+            for c in ast.iter_child_nodes(n):
+                parents[id(c)] = n
+        for n in ast.walk(node):
+            if isinstance(n, ast.Name) and n.id == name and isinstance(n.ctx, ast.Load):
+                p = parents.get(id(n))
+                ok = (isinstance(p, ast.Subscript) and p.value is n and isinstance(p.ctx, ast.Load)) or \
+                     (isinstance(p, ast.Attribute) and p.attr == "get") or \
+                     (isinstance(p, ast.Compare) and n in p.comparators)
+                if not ok:
+                    return None
+        return binds[0].value
 
     def _is_local(self, name: str) -> bool:
         if name in self.f.params:
@@ -302,6 +327,38 @@ class _Stmt:
                             orelse = [chain]
                         out.append(ast.fix_missing_locations(chain))  # type: ignore[arg-type]
                         return out
+            # setattr(x, "name", v)  ->  x.name = v ;  with v = getattr(x, "name") op w  ->  x.name op= w
+            if isinstance(s, ast.Expr) and isinstance(s.value, ast.Call) and isinstance(s.value.func, ast.Name) and s.value.func.id == "setattr" \
+                    and len(s.value.args) == 3 and isinstance(s.value.args[1], ast.Constant) and isinstance(s.value.args[1].value, str) \
+                    and s.value.args[1].value.isidentifier():
+                tgt = ast.Attribute(value=s.value.args[0], attr=s.value.args[1].value, ctx=ast.Store())
+                v = _Expr(self.t).visit(copy.deepcopy(s.value.args[2]))
+                s = ast.copy_location(ast.Assign(targets=[tgt], value=v, lineno=s.lineno), s)
+                ast.fix_missing_locations(s)
+                self.changed = True
+                stmts = stmts[:i] + [s] + stmts[i + 1:]
+                continue  # re-examine as an assignment (T = T op V)
+            # for x, y in TABLE: if c(x): A(y); break   ->  if c(x1): A(y1) elif c(x2): A(y2) ...   (first match wins)
+            if isinstance(s, ast.For) and not s.orelse and isinstance(s.target, (ast.Name, ast.Tuple)) and len(s.body) == 1 \
+                    and isinstance(s.body[0], ast.If) and not s.body[0].orelse and s.body[0].body and isinstance(s.body[0].body[-1], ast.Break) \
+                    and not any(isinstance(n, (ast.Break, ast.Continue)) for x in s.body[0].body[:-1] for n in ast.walk(x)) \
+                    and isinstance(s.iter, (ast.Name, ast.Attribute)):
+                rows = self.t.rows(s.iter)
+                if isinstance(rows, list):
+                    binds = [_bind_row(s.target, v) for _, v in rows]
+                    names = {n.id for n in ast.walk(s.target) if isinstance(n, ast.Name)}
+                    if all(b is not None for b in binds) and not _stores(s.body, names):
+                        self.changed = True
+                        chain = None
+                        orelse: list = []
+                        for b in reversed(binds):
+                            inner = s.body[0]
+                            body = self.block([_SubNames(b).visit(copy.deepcopy(x)) for x in inner.body[:-1]]) or [ast.Pass()]
+                            chain = ast.copy_location(ast.If(test=_SubNames(b).visit(copy.deepcopy(inner.test)), body=body, orelse=orelse), s)
+                            orelse = [chain]
+                        out.append(ast.fix_missing_locations(chain))  # type: ignore[arg-type]
+                        i += 1
+                        continue
             # for x, y in TABLE: BODY  ->  unrolled
             if isinstance(s, ast.For) and not s.orelse and isinstance(s.target, (ast.Name, ast.Tuple)):
                 rows = self.t.rows(s.iter)
